@@ -94,6 +94,28 @@ impl Col for Set<i64> {
       s
    }
 }
+impl Col for ascent::lattice::bounded_set::BoundedSet<3, i64> {
+   // `(set ..)` for a set of at most three elements, `none` for TOP
+   fn parse(s: &Sexp) -> Option<Self> {
+      if s.atom() == Some("none") {
+         return Some(Self::TOP);
+      }
+      Some(Self::from_set(Set::<i64>::parse(s)?))
+   }
+   fn render(&self) -> String {
+      if self.is_top() {
+         return "none".into();
+      }
+      let mut xs: Vec<i64> = (-64..=64).filter(|x| self.contains(x)).collect();
+      xs.sort();
+      let mut s = String::from("(set");
+      for x in xs {
+         s.push_str(&format!(" {}", x));
+      }
+      s.push(')');
+      s
+   }
+}
 impl<T: Col> Col for Option<T> {
    fn parse(s: &Sexp) -> Option<Self> {
       if s.atom() == Some("none") {
